@@ -679,6 +679,12 @@ hwloc_alloc_membind(hwloc_topology_t topology, size_t len, hwloc_const_bitmap_t 
 {
   void *ret;
 
+  if ((flags & ~HWLOC_MEMBIND_ALLFLAGS) || hwloc__check_membind_policy(policy) < 0) {
+    /* invalid flags and policies are never ignored, even when a non-strict invalid cpuset falls back to a normal allocation below */
+    errno = EINVAL;
+    return NULL;
+  }
+
   if (flags & HWLOC_MEMBIND_BYNODESET) {
     ret = hwloc_alloc_membind_by_nodeset(topology, len, set, policy, flags);
   } else {
